@@ -45,13 +45,13 @@ class Backend:
         if self.kind == "pandas":
             ix = self.pd.to_datetime(list(idx), unit="ns") if self.time else list(idx)
             return self.pd.Series(list(vals), index=ix, name=name, dtype="float64" if False else None)
-        return self.pd.MSeries(list(vals), list(idx), name)
+        return self.pd.MSeries(self.pd.wrap(vals) if name == "x" else list(vals), list(idx), name)
 
     def frame(self, cols, idx):
         if self.kind == "pandas":
             ix = self.pd.to_datetime(list(idx), unit="ns") if self.time else list(idx)
             return self.pd.DataFrame({k: list(v) for k, v in cols.items()}, index=ix)
-        return self.pd.MFrame(cols, list(idx))
+        return self.pd.MFrame({k: (self.pd.wrap(v) if k != "k" else list(v)) for k, v in cols.items()}, list(idx))
 
     time = False
 
@@ -70,27 +70,42 @@ def norm(x):
         return None
     tn = type(x).__name__
     if tn in ("MSeries",):
-        return {"keys": list(x.index.values), "vals": list(x.values)}
+        keys = [k.n if (type(k).__name__ == "R" and k.d == 1) else k for k in x.index.values]
+        return {"keys": keys, "vals": [None if (type(v).__name__ == "R" and v.d == 0) else v for v in x.values]}
     if tn == "Series":
-        vals = [None if (isinstance(v, float) and math.isnan(v)) else v for v in x.tolist()]
+        vals = [None if (isinstance(v, float) and (math.isnan(v) or math.isinf(v))) else v for v in x.tolist()]
         keys = list(x.index)
         try:
             keys = [int(k.value) if hasattr(k, "value") else k for k in keys]
         except Exception:
             pass
         return {"keys": keys, "vals": vals}
-    if isinstance(x, float) and math.isnan(x):
+    if isinstance(x, float) and (math.isnan(x) or math.isinf(x)):
+        return None
+    if tn == "R" and x.d == 0:
         return None
     return x
 
 
 def num_eq(a, b):
-    """Equality of two numbers; pandas side is float: tolerate rounding only there."""
+    """Equality of two numbers; pandas side is float: tolerate rounding only there.
+    Model numbers are exact rationals (mframe.R): == is cross-multiplication."""
     if a is None or b is None:
         return a is None and b is None
+    ta, tb = type(a).__name__, type(b).__name__
+    if ta == "R" or tb == "R":
+        if isinstance(a, tuple) or isinstance(b, tuple):
+            return False
+        if ta == "R" and tb != "R":
+            return abs(float(a) - float(b)) <= 1e-9 * max(1.0, abs(float(b)))
+        if tb == "R" and ta != "R":
+            return abs(float(b) - float(a)) <= 1e-9 * max(1.0, abs(float(a)))
+        return a == b
+    if isinstance(a, tuple) and isinstance(b, tuple) and a[0] == "sqrt":
+        return num_eq(a[1], b[1])
     if isinstance(a, tuple) or isinstance(b, tuple):       # ("sqrt", v)
         return a == b
-    if type(a) is float or type(b) is float:
+    if isinstance(a, float) or isinstance(b, float):
         try:
             return abs(a - b) <= 1e-9 * max(1.0, abs(a), abs(b))
         except TypeError:
@@ -102,15 +117,16 @@ def same(a, b, as_map=True, ignore_zero=False):
     """Compare two normalised results."""
     if isinstance(a, dict) and isinstance(b, dict):
         if as_map:
-            da = dict(zip(a["keys"], a["vals"]))
-            db = dict(zip(b["keys"], b["vals"]))
+            pa = list(zip(a["keys"], a["vals"]))
+            pb = list(zip(b["keys"], b["vals"]))
             if ignore_zero:
-                da = {k: v for k, v in da.items() if v != 0}
-                db = {k: v for k, v in db.items() if v != 0}
-            if len(da) != len(db):
+                pa = [(k, v) for k, v in pa if not num_eq(v, 0)]
+                pb = [(k, v) for k, v in pb if not num_eq(v, 0)]
+            if len(pa) != len(pb):
                 return False
-            for k in da:
-                if k not in db or not num_eq(da[k], db[k]):
+            for k, v in pa:
+                hit = [w for kk, w in pb if kk == k]
+                if len(hit) != 1 or not num_eq(v, hit[0]):
                     return False
             return True
         if len(a["vals"]) != len(b["vals"]):
